@@ -9,7 +9,7 @@ From stdpp Require Import gmap.
 From Galaxy.Base Require Import Strs.
 From Galaxy.Model Require Import Nets Pool Ipam Plugin.
 From Galaxy.Model Require Keys.
-From Galaxy.Proofs Require Import KeysP IpamP PluginInv PluginInvL PluginKeyFacts PluginIpamFacts PluginEnvP PluginUnbindP PluginBindP.
+From Galaxy.Proofs Require Import KeysP IpamP PluginInv PluginInvL PluginKeyFacts PluginIpamFacts PluginEnvP PluginUnbindP PluginBindP PluginP.
 Local Open Scope N_scope.
 
 (** * 1. Specification *)
@@ -1088,3 +1088,374 @@ Proof.
     + exfalso. apply (lost_keeps _ _ _ Hl). by rewrite <- Hk.
     + by eapply lic_restart.
 Qed.
+
+(** * 7. What a user relies on: never / immutable IPs survive pod events and resync *)
+Lemma lost_or_keeps i' x K : lost i' x K ∨ keeps i' x K.
+Proof.
+  destruct (i_alloc i' !! x) as [e'|] eqn:He'.
+  - destruct (str_eqb_spec (e_key e') K) as [Ek|Ek]; [right; by exists e'|]. left. intros e0 He0. congruence.
+  - left. intros e0 He0. congruence.
+Qed.
+
+(** the pod's kind can reserve at all: bare pods need a name with a numeric suffix *)
+Definition can_reserve (q : pod) : Prop := pd_kind q = KBare → is_Some (pod_index (pd_name q)).
+
+Lemma never_verdict w q : can_reserve q → policy_verdict w (keyobj_of q) 2 ≠ MustFree.
+Proof.
+  intros Hc. unfold policy_verdict. rewrite ko_is_dp_pod, ko_is_sts_pod. cbn [N.eqb Pos.eqb andb].
+  destruct (pd_kind q) eqn:Ek; cbn; try done.
+  rewrite (bool_decide_eq_false_2 (KBare = KDp)), (bool_decide_eq_false_2 (KBare = KSts)) by done.
+  change (Keys.ko_pod (keyobj_of q)) with (pd_name q). by rewrite (bool_decide_eq_true_2 _ (Hc Ek)).
+Qed.
+
+(** the IP [x] is still reserved: under the pod key, or parked under the application / pool prefix *)
+Definition still_reserved (i' : ipam) (x : N) (q : pod) : Prop :=
+  ∃ e', i_alloc i' !! x = Some e' ∧ (e_key e' = pod_key q ∨ e_key e' = Keys.pool_prefix (keyobj_of q)).
+
+Theorem never_kept_l w x e q :
+  WInv w → i_alloc (w_ipam w) !! x = Some e → wf_pod q → e_key e = pod_key q → can_reserve q →
+  (∀ n orc oun fl qe, w_queue w !! n = Some qe → pod_key qe = pod_key q → policy_of qe = 2 →
+     still_reserved (w_ipam (pstep w (PEvent n orc oun fl)).1) x q) ∧
+  (∀ x0 orc ocl fl e0, i_alloc (w_ipam w) !! x0 = Some e0 → e_key e0 = pod_key q → e_policy e0 = 2 →
+     still_reserved (w_ipam (pstep w (PResync x0 orc ocl fl)).1) x q).
+Proof.
+  intros Hw He Wq Hk Hc. split.
+  - intros n orc oun fl qe Hq Hkq Hpol.
+    destruct (lost_or_keeps (w_ipam (pstep w (PEvent n orc oun fl)).1) x (pod_key q)) as [Hl|(e' & He' & Hk')];
+      [|exists e'; by split; [|left]].
+    pose proof (release_only_when_licensed_l w (PEvent n orc oun fl) x e q Hw I He Wq Hk Hl) as Hlic.
+    inversion Hlic as [? ? ? ? Ho|? ? ? Ho|? ? Ho|n' orc' oun' fl' qe' Ho Hq' _ _ Hv|? ? ? ? ? Ho]; try discriminate Ho.
+    injection Ho as <- _ _ _. rewrite Hq in Hq'. injection Hq' as <-. rewrite Hpol in Hv. specialize (Hv ltac:(lia)).
+    unfold verdict_allows in Hv. unfold still_reserved. destruct (i_alloc (w_ipam (pstep w _).1) !! x) as [e'|].
+    + exists e'. split; [done|right]. by destruct Hv.
+    + by destruct (never_verdict w q Hc).
+  - intros x0 orc ocl fl e0 He0 Hk0 Hpol.
+    destruct (lost_or_keeps (w_ipam (pstep w (PResync x0 orc ocl fl)).1) x (pod_key q)) as [Hl|(e' & He' & Hk')];
+      [|exists e'; by split; [|left]].
+    pose proof (release_only_when_licensed_l w (PResync x0 orc ocl fl) x e q Hw I He Wq Hk Hl) as Hlic.
+    inversion Hlic as [? ? ? ? Ho|? ? ? Ho|? ? Ho|? ? ? ? ? Ho|x0' orc' ocl' fl' e0' Ho He0' _ _ Hv]; try discriminate Ho.
+    injection Ho as <- _ _ _. rewrite He0 in He0'. injection He0' as <-. rewrite Hpol in Hv. specialize (Hv ltac:(lia)).
+    unfold verdict_allows in Hv. unfold still_reserved. destruct (i_alloc (w_ipam (pstep w _).1) !! x) as [e'|].
+    + exists e'. split; [done|right]. by destruct Hv.
+    + by destruct (never_verdict w q Hc).
+Qed.
+
+Lemma immutable_sts_verdict w q r idx :
+  pd_kind q = KSts → w_sts w !! (pd_ns q, pd_app q) = Some r → pod_ordinal (pd_name q) = Some idx → idx < r →
+  policy_verdict w (keyobj_of q) 1 = KeepForPod.
+Proof.
+  intros Hk Hs Hi Hlt. unfold policy_verdict. rewrite ko_is_dp_pod, ko_is_sts_pod, Hk. cbn [N.eqb Pos.eqb].
+  rewrite bool_decide_eq_false_2 by done. rewrite bool_decide_eq_true_2 by done.
+  change (Keys.ko_ns (keyobj_of q)) with (pd_ns q). change (Keys.ko_pod (keyobj_of q)) with (pd_name q).
+  replace (Keys.ko_app (keyobj_of q)) with (pd_app q) by (unfold keyobj_of, app_of; by rewrite Hk).
+  rewrite Hs, Hi. by destruct (N.ltb_spec idx r); [|lia].
+Qed.
+
+Theorem immutable_kept_sts_l w x e q r idx :
+  WInv w → i_alloc (w_ipam w) !! x = Some e → wf_pod q → e_key e = pod_key q →
+  pd_kind q = KSts → w_sts w !! (pd_ns q, pd_app q) = Some r → pod_ordinal (pd_name q) = Some idx → idx < r →
+  (∀ n orc oun fl qe, w_queue w !! n = Some qe → pod_key qe = pod_key q → policy_of qe = 1 →
+     keeps (w_ipam (pstep w (PEvent n orc oun fl)).1) x (pod_key q)) ∧
+  (∀ x0 orc ocl fl e0, i_alloc (w_ipam w) !! x0 = Some e0 → e_key e0 = pod_key q → e_policy e0 = 1 →
+     keeps (w_ipam (pstep w (PResync x0 orc ocl fl)).1) x (pod_key q)).
+Proof.
+  intros Hw He Wq Hk Hkind Hs Hi Hlt. pose proof (immutable_sts_verdict w q r idx Hkind Hs Hi Hlt) as Hver. split.
+  - intros n orc oun fl qe Hq Hkq Hpol.
+    destruct (lost_or_keeps (w_ipam (pstep w (PEvent n orc oun fl)).1) x (pod_key q)) as [Hl|?]; [|done].
+    pose proof (release_only_when_licensed_l w (PEvent n orc oun fl) x e q Hw I He Wq Hk Hl) as Hlic.
+    inversion Hlic as [? ? ? ? Ho|? ? ? Ho|? ? Ho|n' orc' oun' fl' qe' Ho Hq' _ _ Hv|? ? ? ? ? Ho]; try discriminate Ho.
+    injection Ho as <- _ _ _. rewrite Hq in Hq'. injection Hq' as <-. rewrite Hpol in Hv. specialize (Hv ltac:(lia)).
+    unfold verdict_allows in Hv. rewrite Hver in Hv. destruct (i_alloc (w_ipam (pstep w _).1) !! x); [by destruct Hv as (_ & _ & ?)|done].
+  - intros x0 orc ocl fl e0 He0 Hk0 Hpol.
+    destruct (lost_or_keeps (w_ipam (pstep w (PResync x0 orc ocl fl)).1) x (pod_key q)) as [Hl|?]; [|done].
+    pose proof (release_only_when_licensed_l w (PResync x0 orc ocl fl) x e q Hw I He Wq Hk Hl) as Hlic.
+    inversion Hlic as [? ? ? ? Ho|? ? ? Ho|? ? Ho|? ? ? ? ? Ho|x0' orc' ocl' fl' e0' Ho He0' _ _ Hv]; try discriminate Ho.
+    injection Ho as <- _ _ _. rewrite He0 in He0'. injection He0' as <-. rewrite Hpol in Hv. specialize (Hv ltac:(lia)).
+    unfold verdict_allows in Hv. rewrite Hver in Hv. destruct (i_alloc (w_ipam (pstep w _).1) !! x); [by destruct Hv as (_ & _ & ?)|done].
+Qed.
+
+(** * 8. The last sentence of the property, in terms of the API server *)
+
+(** the pod incarnation an IP is stored for no longer exists in the API server (or has finished) *)
+Definition pod_gone (w : world) (q : pod) (stored_uid : str) : Prop :=
+  match w_pods w !! pk q with
+  | None => True
+  | Some p => finished p = true ∨ (stored_uid ≠ [] ∧ pd_uid p ≠ stored_uid)
+  end.
+
+Lemma pod_gone_not_running w q u :
+  w_lister w = w_pods w → pod_gone w q u → pod_running w (pd_ns q) (pd_name q) u = false.
+Proof.
+  intros El Hg. unfold pod_running. destruct (_ || _)%bool; [done|]. rewrite El, orb_diag.
+  unfold pod_gone in Hg. change (w_pods w !! (pd_ns q, pd_name q)) with (w_pods w !! pk q).
+  destruct (w_pods w !! pk q) as [p|]; [|done]. unfold running_and_uid.
+  destruct Hg as [->|[Hu Hne]]; [by destruct (_ && _)%bool|].
+  destruct u; [done|]. cbn [Keys.is_empty negb andb]. by destruct (str_eqb_spec (a :: u) (pd_uid p)).
+Qed.
+
+Theorem resync_pass_no_orphans_l w items w' :
+  WInv w → w_lister w = w_pods w → (∀ x, is_Some (i_alloc (w_ipam w) !! x) → x ∈ items) → resync_pass w items w' →
+  ∀ x e q, i_alloc (w_ipam w') !! x = Some e → wf_pod q → e_key e = pod_key q → e_policy e ≤ 2 →
+           resync_skip e (keyobj_of q) = false → pod_gone w' q (e_uid e) →
+           policy_verdict w' (keyobj_of q) (e_policy e) = KeepForPod.
+Proof.
+  intros Hw El Hcov Hpass x e q He Wq Hk Hpol Hskip Hg.
+  destruct (resync_pass_done _ _ _ Hpass (wi_ipam w Hw)) as (_ & (Hp & Hl & _) & _).
+  eapply (resync_pass_exact_l w items w' (wi_ipam w Hw) Hcov Hpass x e q); try done.
+  apply pod_gone_not_running; [congruence|done].
+Qed.
+
+(** * 9. K1: the reserve of a deleted deployment is never released by resync *)
+Lemma prefix_reserve_never_resynced w x e ip o ocl fl :
+  Inv2 (w_ipam w) → i_alloc (w_ipam w) !! x = Some e →
+  Keys.is_empty (Keys.ko_pod (Keys.parse_key (e_key e))) = true →
+  i_alloc (w_ipam (resync_section w ip o ocl fl).1) !! x = Some e.
+Proof.
+  intros Hi He Hpod. destruct (resync_section_frame w ip o ocl fl Hi) as (_ & _ & [E|(ey & _ & Hs & _ & Hc)]).
+  { by rewrite E. }
+  eapply rchg_other; [exact Hc|done|]. intros Ek. unfold resync_skip in Hs. rewrite <- Ek, Hpod in Hs.
+  by rewrite orb_true_r in Hs.
+Qed.
+
+Lemma prefix_reserve_survives_pass w items w' x e :
+  resync_pass w items w' → Inv2 (w_ipam w) → i_alloc (w_ipam w) !! x = Some e →
+  Keys.is_empty (Keys.ko_pod (Keys.parse_key (e_key e))) = true →
+  i_alloc (w_ipam w') !! x = Some e.
+Proof.
+  induction 1 as [w|w ip items o ocl w1 r w' Hres Hr Hpass IH]; intros Hi He Hpod; [done|].
+  destruct (resync_section_frame w ip o ocl no_faults Hi) as (_ & Hi1 & _).
+  pose proof (prefix_reserve_never_resynced w x e ip o ocl no_faults Hi He Hpod) as He1.
+  rewrite Hres in Hi1, He1. by apply IH.
+Qed.
+
+(** * 10. Concrete worlds *)
+
+(** a boolean check of the well-formedness of the histories used below *)
+Definition c03_wf_pod_b (p : pod) : bool :=
+  let ok s := negb (Keys.is_empty s) && negb (contains_char Keys.us s) in
+  ok (pd_ns p) && ok (pd_name p) && negb (Keys.is_empty (pd_uid p)) &&
+  match pd_kind p with KBare => true | _ => ok (pd_app p) end && negb (contains_char Keys.us (pd_pool p)).
+Lemma c03_wf_pod_b_sound p : c03_wf_pod_b p = true → wf_pod p.
+Proof.
+  unfold c03_wf_pod_b. intros H. apply andb_true_iff in H as [H H5]. apply andb_true_iff in H as [H H4].
+  apply andb_true_iff in H as [H H3]. apply andb_true_iff in H as [H1 H2]. split.
+  - by apply small_name_ok'.
+  - by apply small_name_ok'.
+  - by destruct (pd_uid p).
+  - destruct (pd_kind p); try done; by apply small_name_ok'.
+  - apply contains_char_false. by apply negb_true_iff.
+Qed.
+
+Definition c03_fresh_b (w : world) (u : str) : bool :=
+  forallb (λ kv : pkey * pod, negb (str_eqb (pd_uid kv.2) u)) (map_to_list (w_pods w)) &&
+  forallb (λ kv : pkey * pod, negb (str_eqb (pd_uid kv.2) u)) (map_to_list (w_lister w)) &&
+  forallb (λ q, negb (str_eqb (pd_uid q) u)) (w_queue w).
+Lemma c03_fresh_b_sound w u : c03_fresh_b w u = true → uid_fresh w u.
+Proof.
+  unfold c03_fresh_b. intros H. apply andb_true_iff in H as [H H3]. apply andb_true_iff in H as [H1 H2].
+  rewrite forallb_forall in H1, H2, H3. split_and!.
+  - intros k q Hq. apply elem_of_map_to_list, elem_of_list_In in Hq. specialize (H1 _ Hq). cbn in H1.
+    by destruct (str_eqb_spec (pd_uid q) u).
+  - intros k q Hq. apply elem_of_map_to_list, elem_of_list_In in Hq. specialize (H2 _ Hq). cbn in H2.
+    by destruct (str_eqb_spec (pd_uid q) u).
+  - apply Forall_forall. intros q Hq. apply elem_of_list_In in Hq. specialize (H3 _ Hq). cbn in H3.
+    by destruct (str_eqb_spec (pd_uid q) u).
+Qed.
+
+Definition c03_wf_op_b (w : world) (o : pop) : bool :=
+  match o with
+  | PEnv (EPodPut p) => c03_wf_pod_b p && Keys.is_empty (pd_node p) && match pd_ips p with [] => true | _ => false end &&
+                        c03_fresh_b w (pd_uid p)
+  | PEnv (EPodPhase _ _) => false
+  | PEnv _ => true
+  | PBind _ _ uid _ _ _ => negb (Keys.is_empty uid)
+  | PApiRelease _ _ _ _ => false
+  | PIpam (OConfigure _ _ []) => bool_decide (w_pods w = ∅)
+  | PIpam _ => false
+  | PRestart _ => false
+  | _ => true
+  end.
+Lemma c03_wf_op_b_sound w o : c03_wf_op_b w o = true → wf_op w o.
+Proof.
+  destruct o as [ev|key nodes orc fl|ns name uid node orc fl|n orc oun fl|ip orc ocl fl|k ip ocl fl|key fl|io|conf];
+    cbn [c03_wf_op_b wf_op]; try done.
+  - destruct ev; cbn [wf_env]; try done. intros H. apply andb_true_iff in H as [H H4].
+    apply andb_true_iff in H as [H H3]. apply andb_true_iff in H as [H1 H2].
+    split_and!; [by apply c03_wf_pod_b_sound|by destruct (pd_ips p)|by destruct (pd_node p)|by apply c03_fresh_b_sound].
+  - intros H. by destruct uid.
+  - destruct io; try done. destruct delfail; [|done]. intros H. apply bool_decide_eq_true in H. split; [done|].
+    intros ps _ k p x Hp. rewrite H in Hp. by rewrite lookup_empty in Hp.
+Qed.
+Fixpoint c03_wf_hist_b (w : world) (ops : list pop) : bool :=
+  match ops with [] => true | o :: r => c03_wf_op_b w o && c03_wf_hist_b (pstep w o).1 r end.
+Lemma c03_wf_hist_b_sound ops : ∀ w, c03_wf_hist_b w ops = true → wf_hist w ops.
+Proof.
+  induction ops as [|o r IH]; intros w; cbn [c03_wf_hist_b wf_hist]; [done|].
+  intros H. apply andb_true_iff in H as [H1 H2]. split; [by apply c03_wf_op_b_sound|by apply IH].
+Qed.
+
+(** one pool 10.100.0.2~10.100.0.9 routable from 10.1.0.0/24 and 10.2.0.0/24; node1 = 10.1.0.7; 10.100.0.2 = 174325762 *)
+Definition c03_conf : list json :=
+  [JObj [(L "nodeSubnets", JArr [JStr (L "10.1.0.0/24"); JStr (L "10.2.0.0/24")]);
+         (L "ips", JArr [JStr (L "10.100.0.2~10.100.0.9")]);
+         (L "subnet", JStr (L "10.100.0.0/24"));
+         (L "gateway", JStr (L "10.100.0.1"));
+         (L "vlan", JNum 2%Z)]].
+Definition c03_nodes : gmap str N := list_to_map [(L "node1", 167837703); (L "node2", 167903241)].
+Definition c03_orc (f c : option N) (l : list N) : oracle := {| o_first := f; o_choice := c; o_order := l |}.
+Definition c03_ip : N := 174325762.
+
+(** K1: a deployment pod with the immutable policy gets 10.100.0.2, is deleted (its IP is parked under the
+    application prefix "dp_ns1_app_"), then the deployment is deleted *)
+Definition c03_dpod : pod :=
+  {| pd_ns := L "ns1"; pd_name := L "app-5c-x1"; pd_uid := L "uD"; pd_kind := KDp; pd_app := L "app"; pd_pool := [];
+     pd_policy := 1; pd_ranges := []; pd_phase := 0; pd_node := []; pd_ips := [] |}.
+Definition c03_dk : pkey := (L "ns1", L "app-5c-x1").
+Definition c03_h_k1 : list pop := [
+  PIpam (OConfigure c03_conf false []);
+  PEnv (EDpSet (L "ns1", L "app") (Some 1));
+  PEnv (EPodPut c03_dpod);
+  PEnv (EInformer c03_dk);
+  PBind (L "ns1") (L "app-5c-x1") (L "uD") (L "node1") (c03_orc None (Some c03_ip) []) no_faults;
+  PEnv (EPodDelete c03_dk);
+  PEnv (EInformer c03_dk);
+  PEvent 0 (c03_orc None None [c03_ip]) [] no_faults;
+  PEnv (EDpSet (L "ns1", L "app") None) ].
+Definition c03_w_k1 : world := prun (world0 false c03_nodes) c03_h_k1.
+
+Lemma c03_w_k1_winv : WInv c03_w_k1.
+Proof. apply winv_reachable, c03_wf_hist_b_sound. vm_compute. reflexivity. Qed.
+
+Theorem dp_reserve_leak_refuted_l :
+  ∃ w x e, WInv w ∧ w_pods w = ∅ ∧ w_lister w = ∅ ∧ w_queue w = [] ∧ w_dps w = ∅ ∧
+    i_alloc (w_ipam w) !! x = Some e ∧ e_key e = L "dp_ns1_app_" ∧ e_policy e = 1 ∧ e_uid e = [] ∧
+    (∀ ip o ocl fl, i_alloc (w_ipam (resync_section w ip o ocl fl).1) !! x = Some e) ∧
+    (∀ items w', resync_pass w items w' → i_alloc (w_ipam w') !! x = Some e).
+Proof.
+  exists c03_w_k1, c03_ip. eexists. split; [apply c03_w_k1_winv|].
+  split; [apply map_to_list_empty_iff; vm_compute; reflexivity|].
+  split; [apply map_to_list_empty_iff; vm_compute; reflexivity|]. split; [vm_compute; reflexivity|].
+  split; [apply map_to_list_empty_iff; vm_compute; reflexivity|].
+  assert (∀ e, i_alloc (w_ipam c03_w_k1) !! c03_ip = Some e → e_key e = L "dp_ns1_app_" →
+               Keys.is_empty (Keys.ko_pod (Keys.parse_key (e_key e))) = true) as Hpod.
+  { intros e _ ->. vm_compute. reflexivity. }
+  split; [vm_compute; reflexivity|]. split; [vm_compute; reflexivity|]. split; [vm_compute; reflexivity|].
+  split; [vm_compute; reflexivity|]. split.
+  - intros ip o ocl fl. apply prefix_reserve_never_resynced; [apply c03_w_k1_winv|vm_compute; reflexivity|].
+    apply Hpod; vm_compute; reflexivity.
+  - intros items w' Hp. eapply prefix_reserve_survives_pass; [exact Hp|apply c03_w_k1_winv|vm_compute; reflexivity|].
+    apply Hpod; vm_compute; reflexivity.
+Qed.
+
+(** non-vacuity: the pod web-0 of the statefulset ns1/web (replicas 2) with policy [pol] gets 10.100.0.2 and is
+    deleted; its delete event is lost; then the statefulset is scaled to [repl] (or deleted) *)
+Definition c03_spod (pol : N) : pod :=
+  {| pd_ns := L "ns1"; pd_name := L "web-0"; pd_uid := L "uA"; pd_kind := KSts; pd_app := L "web"; pd_pool := [];
+     pd_policy := pol; pd_ranges := []; pd_phase := 0; pd_node := []; pd_ips := [] |}.
+Definition c03_web0 : pkey := (L "ns1", L "web-0").
+Definition c03_h_sts (pol : N) (repl : option N) : list pop := [
+  PIpam (OConfigure c03_conf false []);
+  PEnv (EStsSet (L "ns1", L "web") (Some 2));
+  PEnv (EPodPut (c03_spod pol));
+  PEnv (EInformer c03_web0);
+  PBind (L "ns1") (L "web-0") (L "uA") (L "node1") (c03_orc None (Some c03_ip) []) no_faults;
+  PEnv (EPodDelete c03_web0);
+  PEnv (EInformer c03_web0);
+  PEnv (EDropEvent 0);
+  PEnv (EStsSet (L "ns1", L "web") repl) ].
+Definition c03_w_sts (pol : N) (repl : option N) : world := prun (world0 false c03_nodes) (c03_h_sts pol repl).
+
+Lemma resync_pass_one w ip o ocl :
+  (resync_section w ip o ocl no_faults).2 ≠ SStuck → resync_pass w [ip] (resync_section w ip o ocl no_faults).1.
+Proof.
+  intros H. apply rp_cons with (o := o) (ocl := ocl) (w1 := (resync_section w ip o ocl no_faults).1)
+                               (r := (resync_section w ip o ocl no_faults).2); [|done|apply rp_nil].
+  by destruct (resync_section w ip o ocl no_faults).
+Qed.
+
+Lemma c03_example_l :
+  let q := c03_spod 1 in
+  let w := c03_w_sts 1 (Some 0) in            (* immutable, scaled to 0: must be freed *)
+  let w2 := c03_w_sts 1 (Some 1) in           (* immutable, scaled to 1: kept for web-0 *)
+  wf_pod q ∧ sts_named (pd_name q) ∧
+  WInv w ∧ w_queue w = [] ∧ w_lister w = w_pods w ∧
+  (∃ e, i_alloc (w_ipam w) !! c03_ip = Some e ∧ e_key e = pod_key q ∧ e_policy e = 1 ∧ e_uid e = L "uA" ∧
+        resync_skip e (keyobj_of q) = false ∧ pod_running w (pd_ns q) (pd_name q) (e_uid e) = false ∧
+        pod_gone w q (e_uid e) ∧ policy_verdict w (keyobj_of q) (e_policy e) = MustFree) ∧
+  (∀ x, is_Some (i_alloc (w_ipam w) !! x) → x ∈ [c03_ip]) ∧
+  (∃ w', resync_pass w [c03_ip] w' ∧ i_alloc (w_ipam w') !! c03_ip = None) ∧
+  WInv w2 ∧ policy_verdict w2 (keyobj_of q) 1 = KeepForPod ∧
+  (∃ w' e', resync_pass w2 [c03_ip] w' ∧ i_alloc (w_ipam w') !! c03_ip = Some e' ∧ e_key e' = pod_key q ∧
+            e_uid e' = [] ∧ e_node e' = [] ∧ e_policy e' = 1).
+Proof.
+  intros q w w2.
+  split; [apply c03_wf_pod_b_sound; vm_compute; reflexivity|].
+  split; [exists (L "web"), (L "0"); split_and!; [reflexivity|discriminate|reflexivity]|].
+  split; [apply winv_reachable, c03_wf_hist_b_sound; vm_compute; reflexivity|].
+  split; [vm_compute; reflexivity|].
+  split.
+  { transitivity (∅ : gmap pkey pod); [|symmetry]; apply map_to_list_empty_iff; vm_compute; reflexivity. }
+  split.
+  { eexists. split; [vm_compute; reflexivity|]. split_and!; try (vm_compute; reflexivity).
+    all: unfold pod_gone; replace (w_pods w !! pk q) with (@None pod) by (vm_compute; reflexivity); done. }
+  split.
+  { intros x [e He]. apply elem_of_list_singleton.
+    apply elem_of_map_to_list in He.
+    replace (map_to_list (i_alloc (w_ipam w))) with
+      [(c03_ip, {| e_key := L "sts_ns1_web_web-0"; e_policy := 1; e_node := L "node1"; e_uid := L "uA"; e_reserved := false; e_time := 2 |})]
+      in He by (vm_compute; reflexivity).
+    apply elem_of_list_singleton in He. by injection He. }
+  split.
+  { eexists. split; [apply (resync_pass_one w c03_ip (c03_orc None None [c03_ip]) []); vm_compute; discriminate|].
+    vm_compute. reflexivity. }
+  split; [apply winv_reachable, c03_wf_hist_b_sound; vm_compute; reflexivity|].
+  split; [vm_compute; reflexivity|].
+  eexists _, _. split; [apply (resync_pass_one w2 c03_ip (c03_orc None None [c03_ip]) []); vm_compute; discriminate|].
+  split; [vm_compute; reflexivity|]. split_and!; vm_compute; reflexivity.
+Qed.
+
+(** * 11. The statements of Props/C03.v (premise [WInv] instead of [Inv2]) *)
+Lemma default_released_by_event_w w n q o oun fl w' :
+  WInv w → w_queue w !! n = Some q → policy_of q = 0 → f_store fl = None →
+  (∀ x e, i_alloc (w_ipam w) !! x = Some e → e_key e = pod_key q → e_uid e = [] ∨ e_uid e = pd_uid q) →
+  pstep w (PEvent n o oun fl) = (w', ROk) →
+  ∀ x e, i_alloc (w_ipam w) !! x = Some e → e_key e = pod_key q → i_alloc (w_ipam w') !! x = None.
+Proof. intros Hw. apply default_released_by_event_l, Hw. Qed.
+
+Lemma resync_item_exact_w w ip e q o ocl fl w' r :
+  WInv w → i_alloc (w_ipam w) !! ip = Some e → wf_pod q → e_key e = pod_key q →
+  resync_skip e (keyobj_of q) = false → pod_running w (pd_ns q) (pd_name q) (e_uid e) = false →
+  e_policy e ≤ 2 → (pd_kind q = KSts → sts_named (pd_name q)) →
+  f_store fl = None → f_cloud fl = None →
+  resync_section w ip o ocl fl = (w', r) → r ≠ SStuck →
+  same_env w w' ∧
+  ∀ y ey, i_alloc (w_ipam w) !! y = Some ey → e_key ey = pod_key q →
+    match policy_verdict w (keyobj_of q) (e_policy e) with
+    | MustFree => i_alloc (w_ipam w') !! y = None
+    | KeepForPod => ∃ ey', i_alloc (w_ipam w') !! y = Some ey' ∧ cleared ey ey' (pod_key q)
+    | KeepForApp => ∃ ey', i_alloc (w_ipam w') !! y = Some ey' ∧ cleared ey ey' (Keys.pool_prefix (keyobj_of q))
+    end.
+Proof. intros Hw. apply resync_item_exact_l, Hw. Qed.
+
+Lemma resync_pass_exact_w w items w' :
+  WInv w → (∀ x, is_Some (i_alloc (w_ipam w) !! x) → x ∈ items) → resync_pass w items w' →
+  ∀ x e q, i_alloc (w_ipam w') !! x = Some e → wf_pod q → e_key e = pod_key q → e_policy e ≤ 2 →
+           resync_skip e (keyobj_of q) = false → pod_running w' (pd_ns q) (pd_name q) (e_uid e) = false →
+           policy_verdict w' (keyobj_of q) (e_policy e) = KeepForPod.
+Proof. intros Hw. apply resync_pass_exact_l, Hw. Qed.
+
+Lemma prefix_reserve_survives_resync_w w x e ip o ocl fl :
+  WInv w → i_alloc (w_ipam w) !! x = Some e → Keys.is_empty (Keys.ko_pod (Keys.parse_key (e_key e))) = true →
+  i_alloc (w_ipam (resync_section w ip o ocl fl).1) !! x = Some e.
+Proof. intros Hw. apply prefix_reserve_never_resynced, Hw. Qed.
+
+(** closed under the global context *)
+Print Assumptions release_only_when_licensed_l.
+Print Assumptions never_kept_l.
+Print Assumptions immutable_kept_sts_l.
+Print Assumptions default_released_by_event_l.
+Print Assumptions resync_item_exact_l.
+Print Assumptions resync_pass_exact_l.
+Print Assumptions resync_pass_no_orphans_l.
+Print Assumptions dp_reserve_leak_refuted_l.
+Print Assumptions c03_example_l.
